@@ -100,8 +100,8 @@ PROPS = {
                 "with std::bitset<W>; non-trivial = >=3 state-changing steps and >=1 boundary event (became all-ones / all-zero, "
                 "fault fired, cross-object step); distinct = distinct event-log hashes of non-trivial runs",
         "assumptions": COMMON_ASSUME,
-        "quick": {"flavours": ["chk-O2"], "runs": 1000000, "max_seconds": 40},
-        "thorough": {"flavours": ["chk-O2", "chk-asan", "off-asan", "chk-O0", "chk-clang"], "runs": 8000000, "max_seconds": 240},
+        "quick": {"flavours": ["chk-O2", "safe-O2"], "runs": 1000000, "max_seconds": 40},
+        "thorough": {"flavours": ["chk-O2", "chk-asan", "off-asan", "chk-O0", "chk-clang", "safe-O2"], "runs": 8000000, "max_seconds": 240},
     },
     "C20": {
         "families": ["fn"],
